@@ -296,6 +296,20 @@ static void do_txt(Cur& c, std::ostream& o, const std::string& kind, const std::
   else if(kind == "sv") { auto a = K::sv(c); txt_rt(o, a, m); }
   else if(kind == "dm") { auto a = K::dm(c); txt_rt(o, a, m); }
   else if(kind == "csr") { auto a = K::csr(c); txt_rt(o, a, m, mode == "mtxsym"); }
+  else if(kind == "bcsr")
+  {
+    // BCSR has a MatrixMarket writer only: the file is read back as the scalar CSR matrix
+    auto a = K::bcsr(c);
+    std::stringstream ss;
+    a.write_out(FileMode::fm_mtx, ss);
+    std::string s = ss.str();
+    o << "L "; dump(o, a);
+    o << " T "; show_text(o, s);
+    std::stringstream is(s);
+    typename K::CSR r;
+    r.read_from(FileMode::fm_mtx, is);
+    o << " "; dump(o, r);
+  }
   else o << "BAD-OP";
 }
 
